@@ -78,6 +78,12 @@ def pres_units():
             ("variant payload", 'pub enum @ { A(#[ts(as = "%s")] Opaque), B }' % t, "pub enum @ { A(%s), B }" % t),
             ("variant", 'pub enum @ { #[ts(as = "%s")] A(Opaque, Opaque), B }' % t, "pub enum @ { A(%s), B }" % t),
             ("underscore", 'pub struct @ { #[ts(as = "Option<_>")] pub f: %s }' % t, "pub struct @ { pub f: Option<%s> }" % t),
+            # `as` together with `inline`: the inline form of the `as` type
+            ("named field, inlined", 'pub struct @ { #[ts(as = "%s", inline)] pub f: Opaque, pub g: String }' % t, "pub struct @ { #[ts(inline)] pub f: %s, pub g: String }" % t),
+            ("newtype, inlined", 'pub struct @(#[ts(as = "%s", inline)] pub Inner);' % t, "pub struct @(#[ts(inline)] pub %s);" % t),
+            ("tuple field, inlined", 'pub struct @(#[ts(as = "%s", inline)] pub Inner, pub i32);' % t, "pub struct @(#[ts(inline)] pub %s, pub i32);" % t),
+            ("variant payload, inlined", 'pub enum @ { A(#[ts(as = "%s", inline)] Inner), B }' % t, "pub enum @ { A(#[ts(inline)] %s), B }" % t),
+            ("untagged variant payload, inlined", '#[ts(untagged)] pub enum @ { A(#[ts(as = "%s", inline)] Inner), B }' % t, "#[ts(untagged)] pub enum @ { A(#[ts(inline)] %s), B }" % t),
         ):
             pairs.append(("as", "%s / %s" % (pos, t), unit(a), unit(b)))
     for t in ["Inner", "Gen<i32>", "DataE", "TagE", "(i32, String)", "Vec<Inner>", "std::ops::Range<Inner>", "(Inner, Option<Gen<i32>>)"]:
